@@ -96,5 +96,17 @@ func hashBases() [][]Op {
 // HashFamily is the hash-command suite.
 func HashFamily() Family {
 	return Family{Name: "hash", Alphabet: hashAlphabet(), Bases: hashBases(), AdvBases: []int{2},
-		Command: func(g *Gen, now int64) []string { return g.HashCommand() }}
+		Command: func(g *Gen, now int64) []string { return g.HashCommand() }, Scripts: hashScripts()}
+}
+
+// hashScripts: deterministic histories kept as regression tests of repaired defects.
+func hashScripts() [][][]string {
+	return [][][]string{
+		// HDEL leaves a hash without fields; HRANDFIELD on it answers the empty array for every count
+		// (was: a negative count panicked in rand.Intn(0))
+		{{"hset", "k1", "f1", "a", "f2", "b"}, {"hdel", "k1", "f1", "f1", "f2"}, {"hrandfield", "k1", "-3"}, {"hrandfield", "k1", "-1", "withvalues"},
+			{"hrandfield", "k1", "2"}, {"hrandfield", "k1"}, {"hlen", "k1"}},
+		// HSET on an existing hash answers the number of fields it names (was: the size of the hash afterwards)
+		{{"hset", "k1", "f1", "v1"}, {"hset", "k1", "f3", ""}, {"hset", "k1", "f1", "x", "f2", "y", "f3", "z"}, {"hset", "k1", "f1", "a", "f1", "b"}, {"hlen", "k1"}},
+	}
 }
